@@ -47,34 +47,36 @@ example : ∃ c, setupTLSConfig ⟨none, true, .valid, .valid, .valid⟩ = .ok c
 /-- FULL STATEMENT (false for the unchanged code): "`setupTLSConfig` leaves every object reachable from the
     caller's tls.Config untouched".  The scalar settings (InsecureSkipVerify, ServerName) are written on a
     `Clone()`; that is checked on the real code by the harness for every combination (any write shows up as an
-    `ALIAS:` answer the model never gives).  But `Clone()` copies the RootCAs POINTER and the Certificates slice
-    header: with CaPath set the CA file is appended to the caller's own pool, and with a key pair and spare
-    capacity the new certificate is stored in the caller's backing array.
+    `ALIAS:` answer the model never gives).  But `Clone()` copies the RootCAs POINTER: with CaPath set the CA file is
+    appended to the caller's own pool (KF-C20-1, open: needs x509.CertPool.Clone, Go >= 1.19).
     Proved part: nothing of the caller's is written unless the caller supplied a RootCAs pool together with a
-    (valid) CaPath, resp. a Certificates slice with spare capacity together with a key pair. -/
+    (valid) CaPath.  The Certificates backing array is never written (KF-C20-2 repaired: C20_caller_backing_untouched). -/
 theorem C20_caller_config_untouched_partial (o : SslOpts) (spare : Bool)
-    (h : o.ca ≠ .valid ∨ ∀ u, o.cfg = some u → u.hasRootCAs = false)
-    (h' : spare = false ∨ (o.cert = .absent ∧ o.key = .absent)) :
+    (h : o.ca ≠ .valid ∨ ∀ u, o.cfg = some u → u.hasRootCAs = false) :
     callerPoolMutated o = false ∧ callerBackingWritten o spare = false := by
   obtain ⟨cfg, ehv, ca, cert, key⟩ := o
-  constructor
-  · rcases cfg with _ | ⟨i, sn, r, n⟩
-    · rfl
-    · rcases h with h | h
-      · simp only at h; simp [callerPoolMutated, h]
-      · have := h _ rfl
-        simp only at this; simp [callerPoolMutated, this]
-  · rcases h' with rfl | ⟨h1, h2⟩
-    · simp [callerBackingWritten]
-    · simp only at h1 h2; subst h1; subst h2; simp [callerBackingWritten]
+  refine ⟨?_, rfl⟩
+  rcases cfg with _ | ⟨i, sn, r, n⟩
+  · rfl
+  · rcases h with h | h
+    · simp only at h; simp [callerPoolMutated, h]
+    · have := h _ rfl
+      simp only at this; simp [callerPoolMutated, this]
 
 /-- counterexample: Config with its own RootCAs + CaPath ⇒ the caller's pool object grows (replayed on the real
     code by the op `tls I0S0R1C0 1 valid absent absent 0` → `… callerpool=grew`) -/
 theorem C20_cex_caller_pool :
     callerPoolMutated ⟨some ⟨false, [], true, 0⟩, true, .valid, .absent, .absent⟩ = true := by decide
 
-theorem C20_cex_caller_backing :
-    callerBackingWritten ⟨some ⟨false, [], false, 1⟩, true, .absent, .valid, .valid⟩ true = true := by decide
+/-- FULL (after the repair of KF-C20-2): for every SslOptions, every caller Certificates slice (any length, spare
+    capacity or not) and every key pair, the key pair is appended to a fresh array — the caller's backing array is
+    never written. -/
+theorem C20_caller_backing_untouched (o : SslOpts) (spare : Bool) : callerBackingWritten o spare = false := rfl
+
+/-- non-vacuity: the former counterexample of KF-C20-2 (one own certificate, spare capacity, a valid key pair) yields a
+    config with TWO certificates while the caller's array is left alone -/
+example : (setupTLSConfig ⟨some ⟨false, [], false, 1⟩, true, .absent, .valid, .valid⟩).toOption.map (·.nCerts) = some 2 ∧
+    callerBackingWritten ⟨some ⟨false, [], false, 1⟩, true, .absent, .valid, .valid⟩ true = false := by decide
 
 /-! ## the server name -/
 
